@@ -77,7 +77,7 @@ def make_mask(rng, shape):
 def workload(ctx, lentil):
     rng = ctx.rng
     Z = zmod()
-    n = 120 if ctx.tier == 'quick' else 900
+    n = ctx.count(120, 900)
     for i in range(n):
         shape = gen.rshape(rng, 8, 28)
         mask, mk = make_mask(rng, shape)
